@@ -1,8 +1,6 @@
 import ComposeVerif.Lemmas.HeapProg
-import ComposeVerif.Lemmas.HeapResolve
 import ComposeVerif.Model.Derivations
 import ComposeVerif.Gen.Derivations
-import ComposeVerif.Gen.C14Progs
 import ComposeVerif.Props.C14
 /-!
 # C14 — the derivations as heap programs: receiver free ⇒ confined (closes the `Confined` hypothesis of `derivation_isolated`)
@@ -70,38 +68,6 @@ theorem derivations_confined (pr : String × List Stmt) (hpr : pr ∈ Deriv.prog
       Isolated (getVar "result" st.vars) p :=
   have h := prog_confined projTy projPlan pr.2 p args n (derivations_receiver_free pr hpr) projPlan_deep.1 hb
   ⟨h.1, h.2.1, h.2.2.1, prog_result_isolated projTy projPlan pr.2 p args n (derivations_receiver_free pr hpr) projPlan_deep.1 hb⟩
-
-/-- **fuel independence**: the resolved root types and plans contain no unresolved node, and any fuel ≥ 64 (in fact any
-fuel ≥ the nesting depth) resolves to the same type and plan -/
-theorem root_resolution_fuel_independent :
-    ∀ r ∈ roots, ∀ m, 64 ≤ m → Plan.resolve fns m r.2.2 = rootPlan r ∧ Ty.resolve types m r.2.1 = rootTy r := by
-  have hc : ∀ r ∈ roots, (rootPlan r).closed = true ∧ (rootTy r).closed = true := by decide +kernel
-  intro r hr m hm
-  exact ⟨Plan.resolve_ge fns 64 r.2.2 (hc r hr).1 m hm, Ty.resolve_ge types 64 r.2.1 (hc r hr).2 m hm⟩
-
-/-! ## the programs are the source (facts regenerated by `translator/c14prog.go`) -/
-
-/-- **the heap programs mirror the source statement for statement**: the statement skeleton the translator prints from
-`types/project.go` (copies, makes, field stores, map stores / deletes, ranges, branches, early returns, calls of other
-modelled functions, with the root variable of every expression) is the skeleton `renderL` prints from the hand-written
-programs.  A store added to a derivation, a loop over another map, the receiver read where the copy was, a reordering:
-each breaks this until the program is re-aligned — so `derivations_receiver_free` is about the code in the tree now. -/
-theorem programs_are_source : Deriv.skeletons = CV.Gen.C14Progs.skeletons := by decide +kernel
-
-/-- the functions mirrored by hand without a skeleton (the goroutine fan-out of `WithServicesTransform`, the closure of
-`WithImagesResolved`, `withServices`, `HasProfile`, the `MappingWithEquals` / `Labels` helpers behind the `call(…)` nodes)
-still have the source text the programs and pure functions were written against -/
-theorem mirrored_sources_unchanged : CV.Gen.C14Progs.sources = [
-  ("WithServicesTransform", "func (p *Project) WithServicesTransform(fn func(name string, s ServiceConfig) (ServiceConfig, error)) (*Project, error) { type result struct { name string service ServiceConfig } expect := len(p.Services) resultCh := make(chan result, expect) newProject := p.deepCopy() services := newProject.Services eg, ctx := errgroup.WithContext(context.Background()) eg.Go(func() error { s := Services{} for expect > 0 { select { case <-ctx.Done(): return nil case r := <-resultCh: s[r.name] = r.service expect-- } } newProject.Services = s return nil }) for n, s := range services { name := n service := s eg.Go(func() error { updated, err := fn(name, service) if err != nil { return err } resultCh <- result{ name: name, service: updated, } return nil }) } return newProject, eg.Wait() }"),
-  ("WithImagesResolved", "func (p *Project) WithImagesResolved(resolver func(named reference.Named) (godigest.Digest, error)) (*Project, error) { return p.WithServicesTransform(func(name string, service ServiceConfig) (ServiceConfig, error) { if service.Image == \"\" { return service, nil } named, err := reference.ParseDockerRef(service.Image) if err != nil { return service, err } if _, ok := named.(reference.Canonical); !ok { digest, err := resolver(named) if err != nil { return service, err } named, err = reference.WithDigest(named, digest) if err != nil { return service, err } } service.Image = named.String() return service, nil }) }"),
-  ("withServices", "func (p *Project) withServices(names []string, fn ServiceFunc, seen map[string]bool, options []DependencyOption, dependencies map[string]ServiceDependency) error { services, servicesNotFound := p.getServicesByNames(names...) if len(servicesNotFound) > 0 { for _, serviceNotFound := range servicesNotFound { if dependency, ok := dependencies[serviceNotFound]; !ok || dependency.Required { return fmt.Errorf(\"no such service: %s\", serviceNotFound) } } } opts := withServicesOptions{ dependencyPolicy: includeDependencies, } for _, option := range options { option(&opts) } for name, service := range services { if seen[name] { continue } seen[name] = true var dependencies map[string]ServiceDependency switch opts.dependencyPolicy { case includeDependents: dependencies = utils.MapsAppend(dependencies, p.dependentsForService(service)) case includeDependencies: dependencies = utils.MapsAppend(dependencies, service.DependsOn) case ignoreDependencies: } if len(dependencies) > 0 { err := p.withServices(utils.MapKeys(dependencies), fn, seen, options, dependencies) if err != nil { return err } } if err := fn(name, service.deepCopy()); err != nil { return err } } return nil }"),
-  ("dependentsForService", "func (p *Project) dependentsForService(s ServiceConfig) map[string]ServiceDependency { dependent := make(map[string]ServiceDependency) for _, service := range p.Services { for name, dependency := range service.DependsOn { if name == s.Name { dependent[service.Name] = dependency } } } return dependent }"),
-  ("HasProfile", "func (s ServiceConfig) HasProfile(profiles []string) bool { if len(s.Profiles) == 0 { return true } for _, p := range profiles { if p == \"*\" { return true } for _, sp := range s.Profiles { if sp == p { return true } } } return false }"),
-  ("MappingWithEquals.Resolve", "func (m MappingWithEquals) Resolve(lookupFn func(string) (string, bool)) MappingWithEquals { for k, v := range m { if v == nil { if value, ok := lookupFn(k); ok { m[k] = &value } } } return m }"),
-  ("MappingWithEquals.OverrideBy", "func (m MappingWithEquals) OverrideBy(other MappingWithEquals) MappingWithEquals { for k, v := range other { m[k] = v } return m }"),
-  ("Labels.ToMappingWithEquals", "func (l Labels) ToMappingWithEquals() MappingWithEquals { mapping := MappingWithEquals{} for k, v := range l { v := v mapping[k] = &v } return mapping }"),
-  ("Labels.Add", "func (l Labels) Add(key, value string) Labels { if l == nil { l = Labels{} } l[key] = value return l }"),
-  ("NewLabelsFromMappingWithEquals", "func NewLabelsFromMappingWithEquals(mapping MappingWithEquals) Labels { labels := Labels{} for k, v := range mapping { if v != nil { labels[k] = *v } } return labels }")] := by decide +kernel
 
 /-! ## histories of programs -/
 
